@@ -284,6 +284,8 @@ func (x *Exec) checkFrame(s *State, ct *Contract) {
 			for _, l := range leavesOf(et) {
 				name := "M$" + typeKey(et) + "$" + l.path
 				if id, ok := t.Index.(*ast.Ident); ok && id.Name == "__all" {
+					allowed[name] = append(allowed[name], cell{ref: b.Ref, lo: b.Off, hi: mkAdd(b.Off, b.Len)})
+				} else if ok && id.Name == "__allcap" {
 					allowed[name] = append(allowed[name], cell{ref: b.Ref, lo: b.Off, hi: mkAdd(b.Off, b.Cap)})
 				} else {
 					i := e.eval(t.Index)
